@@ -128,6 +128,13 @@ class Recorder(object):
     if new_schema != self.schema or ev["k"] == "F":
       ev["schema"] = new_schema
       self.schema = new_schema
+    # facts for the evidence counters (never used as a verdict)
+    try:
+      dm = self.eng.docmodel
+      ev["n_summary"] = sum(1 for t in dm.tables.all if t.summarySourceTable)
+      ev["n_twoway"] = sum(1 for c in dm.columns.all if c.reverseCol)
+    except Exception:    # pylint: disable=broad-except
+      ev["n_summary"] = ev["n_twoway"] = 0
     self.events.append(ev)
     if self.keep_states:
       self.states.append(self.state)
